@@ -66,6 +66,18 @@ def install_singlelane_wrappers():
     _queues.SingleLane.put = put
     _queues.SingleLane.get = get
 
+    # lock-free reads of shared state (`empty()`, `full()`, `qsize()`): a scheduling point right AFTER the value was read,
+    # so that check-then-act sequences built on them can be interleaved with the other side
+    for nm in ('empty', 'full', 'qsize'):
+        orig = getattr(_queues.SingleLane, nm)
+
+        def read(self, _o=orig):
+            v = _o(self)
+            detsched.checkpoint('lockfree-read')
+            return v
+
+        setattr(_queues.SingleLane, nm, read)
+
 
 def install_future_wrappers():
     if 'fut' in _done:
